@@ -368,6 +368,8 @@ func (s *Server) publishDiagnosticsVersion(ctx context.Context, docURI protocol.
 		return
 	}
 	s.resolved.Store(docURI, resolved)
+	// posting templates computed while no tree was recorded know this file only
+	s.payeeTemplatesCache.Delete(docURI)
 	s.docMu.Unlock()
 
 	diagnostics := s.analyze(content, resolved)
